@@ -60,10 +60,12 @@ def scaling_factor(ctx, rule):
 
 def check(ctx):
     scaling_factor(ctx, "C03-a")
-    density_mode(ctx, "C03-b", "IdealReservoir")
-    n = flux_mode(ctx, "C03-c", "IdealReservoir")
+    n = 0
+    for cls in ("IdealReservoir", "SinglePhaseReservoir"):  # the concrete classes: an override in a subclass is seen through its MRO
+        density_mode(ctx, "C03-b", cls)
+        n += flux_mode(ctx, "C03-c", cls)
+        scale_rule(ctx, "C03-d", cls)
     ctx.floor("C03-c", n, 1, "flux-mode recovery paths")
-    scale_rule(ctx, "C03-d", "IdealReservoir")
     from .c02 import rhs_rule
     from .common import check_interp_options
 
